@@ -34,7 +34,7 @@ func VerifC04_TopologyAllocate() {
 			w.nodes[i].Node.Labels[k] = v
 		}
 	}
-	cpu := 16.0 // every pod requests 16 milli-cpu; a node's cpu is a symbolic multiple of it
+	cpu := 16.0                        // every pod requests 16 milli-cpu; a node's cpu is a symbolic multiple of it
 	kind := vr.Choose("constraint", 3) // 0 rack, 1 zone, 2 unknown topology
 	tc := enginev2alpha2.TopologyConstraint{Topology: "topo", RequiredTopologyLevel: []string{"rack", "zone", "rack"}[kind]}
 	if kind == 2 {
